@@ -1,5 +1,5 @@
 (* Executable entry points of the C07 model for the harness. *)
-From Verif Require Import Core.Syntax Core.Eval Print.Model Print.Impl.
+From Verif Require Import Core.Syntax Core.Eval Core.Disj Print.Model Print.Impl Print.DisjModel.
 From Coq Require Import List.
 Import ListNotations.
 
@@ -14,3 +14,15 @@ Definition c07_nf_concrete := nf_concrete.
 Definition c07_print := print_nf.
 Definition c07_range_rewrite := range_rewrite.
 Definition c07_impl_def := impl_def.
+
+(* disjunctions with defaults: the evaluated disjunction, adt.Default, the printed disjuncts, and
+   the value/default pair of a printed disjunction *)
+Definition c07_norm_sdisj := normalize_sdisj.
+Definition c07_take_defaults := take_defaults.
+Definition c07_print_sdisj := print_sdisj.
+Definition c07_pair (labs : list label) (atoms : list atom) (fuel : nat) (plain : list expr) (ds : list disj) :=
+  pair_of labs atoms fuel plain ds.
+Definition c07_pair_accepts := pair_accepts.
+Definition c07_resolve := resolve.
+Definition c07_fold_sensitive := fold_sensitive.
+Definition c07_sres := sres.
